@@ -475,6 +475,17 @@ class Check:
     def finish(self) -> int:
         self.gen_equiv_verdict()      # no-op unless gen_equiv() recorded a broken obligation that was not reported yet
         cov = self.coverage
+        # the evidence schema types a few coverage keys: keep a harness slip from producing an invalid evidence file
+        if not isinstance(cov.get("exhaustive", False), bool):
+            cov["exhaustive_part"] = str(cov["exhaustive"])
+            cov["exhaustive"] = False
+        for k in ("evaluations", "distinct_nontrivial"):
+            if k in cov and not isinstance(cov[k], int):
+                cov[k] = int(cov[k])
+        if "samples" in cov and not isinstance(cov["samples"], list):
+            cov["samples"] = [cov["samples"]]
+        if "rule" in cov and not isinstance(cov["rule"], str):
+            cov["rule"] = str(cov["rule"])
         cov.setdefault("trusted_base", [
             "Coq 8.16.1 kernel + vm_compute (no native_compute)",
             "hand-written Gallina model tied to /repo by the correspondence run of this check (harness/*.py, generated case files evaluated by coqc)",
